@@ -62,6 +62,141 @@ def num_pipe(ctx, verdict, cases, name="digits-nums"):
     return apalache_decimal(ctx, verdict, exprs, flat_cases, sigs, name, spec)
 
 
+# ---------------------------------------------------------------- numbers in every geometry shape
+# (type, layout, structure): structure = positions per part, nested as the type nests; a collection lists members
+SHAPES = [("PT", "XY", None), ("PT", "XYZM", None), ("LS", "XYZ", 3), ("PG", "XYM", [2, 2]), ("MPT", "XY", 3), ("MLS", "XYZM", [2, 1]),
+          ("MPG", "XYZ", [[2], [1, 1]]), ("GC", "XY", [("PT", "XY", None), ("LS", "XY", 2)]), ("LS", "XYZM", 2), ("PG", "XY", [3]),
+          ("MPT", "XYZ", 2), ("PT", "XYM", None), ("MPT", "XYM", 2), ("GC", "XYZ", [("MPT", "XYZ", 1), ("PG", "XYZ", [1])]), ("MLS", "XY", [2]),
+          ("MPG", "XYZM", [[1]]), ("PT", "XYZ", None), ("LS", "XYM", 2), ("GC", "XYZM", [("PT", "XYZM", None), ("GC", "XYZM", [("LS", "XYZM", 1)])])]
+STRIDE = dict(XY=2, XYZ=3, XYM=3, XYZM=4)
+
+
+def shape_positions(shape):
+    t, l, st = shape
+    if t == "PT":
+        return 1
+    if t in ("LS", "MPT"):
+        return st
+    if t in ("PG", "MLS"):
+        return sum(st)
+    if t == "MPG":
+        return sum(sum(p) for p in st)
+    return sum(shape_positions(m) for m in st)
+
+
+def shape_tree(shape, pos):
+    """geometry tree of the shape, taking positions from the iterator pos"""
+    t, l, st = shape
+    take = lambda k: [next(pos) for _ in range(k)]
+    if t == "PT":
+        body = next(pos)
+    elif t in ("LS", "MPT"):
+        body = take(st)
+    elif t in ("PG", "MLS"):
+        body = [take(k) for k in st]
+    elif t == "MPG":
+        body = [[take(k) for k in p] for p in st]
+    else:
+        body = [shape_tree(m, pos) for m in st]
+    return dict(t=t, l=l, body=body)
+
+
+def xnum(v):
+    return "-0" if v == 0 and str(v).startswith("-") else ec.to_exact(v)
+
+
+def shape_cases(vals, d, rot):
+    """All of vals, in order, as the ordinates of geometries of the shapes in rotation (starting at shape rot).  Within one
+    geometry every column (x, y, z, m) is sorted, so that by construction the bounding box is the first position's
+    ordinates followed by the last position's; a geometry that needs more values than are left takes them from the start."""
+    out, i, k = [], 0, rot
+    while i < len(vals):
+        shape = SHAPES[k % len(SHAPES)]
+        k += 1
+        n, st = shape_positions(shape), STRIDE[shape[1]]
+        chunk = [vals[(i + j) % len(vals)] for j in range(n * st)]
+        i += n * st
+        cols = [sorted(chunk[c::st]) for c in range(st)]
+        pos = [[xnum(cols[c][p]) for c in range(st)] for p in range(n)]
+        out.append(dict(kind="shapes", d=d, g=shape_tree(shape, iter(pos))))
+    return out
+
+
+def round_ok(x, lit, d):
+    """Decimal!RoundOK for one literal as written against the exact value x = 'm:e' (None: not a plain decimal)"""
+    m, e = x.split(":")
+    m, e = int(m), int(e)
+    k1, k2, k3 = split3(abs(e))
+    mm = LIT.match(lit)
+    if not mm:
+        return None
+    sign, ip, fp = mm.group(1), mm.group(2), mm.group(3) or ""
+    digits = int(ip + fp) * (-1 if sign else 1)
+    last = int(fp[-1]) if fp else -1
+    return "RoundOK(%s, %d, %d, %d, %s, %d, %s, %d, %d, %d)" % (
+        ec.tla_int(m), k1, k2, k3, "TRUE" if e < 0 else "FALSE", d, ec.tla_int(digits), len(fp), last, max(d - len(fp), 0))
+
+
+def shape_pipe(ctx, verdict, cases, name="digits-shapes"):
+    """Every literal of the WKT text and of the GeoJSON document (coordinates and bounding box, options in both orders) of
+    geometries of every type and layout, each next to the exact ordinate it renders: Apalache decides Decimal!RoundOK.
+    One obligation per ordinate: all literals written for it."""
+    obs = list(vlib.run_driver(ctx, "digits", cases, for_tlc=False))
+    exprs, sigs, flat_cases = [], [], []
+    for c, o in zip(cases, obs):
+        d, g = c["d"], c["g"]
+        dd = "0" if d == 0 else ">0"
+
+        def fail(why):
+            exprs.append("FALSE")
+            sigs.append("digits|" + why)
+            flat_cases.append(c)
+        if o["ev"] != "ok":
+            fail(o["ev"])
+            continue
+        x = o["x"]
+        st = STRIDE[g["l"]]
+        per = [[] for _ in x]            # per ordinate: (source, literal)
+        srcs = [("wkt", o["wkt"]["err"], o["wkt"]["lits"])]
+        if g["l"] != "XYM":                # GeoJSON has no XYM: outside the property's quantifier
+            srcs += [("geojson-" + j["order"], j["err"], j["coords"]) for j in o["gj"]]
+        bad = False
+        for src, err, lits in srcs:
+            if err:
+                fail("%s|encode-error" % src.split("-")[0])
+                bad = True
+            elif len(lits) != len(x):
+                fail("%s|number-of-ordinates" % src.split("-")[0])
+                bad = True
+            else:
+                for k, t in enumerate(lits):
+                    per[k].append((src, t))
+        if g["l"] != "XYM" and not bad:
+            nb = 2 if st == 2 else 3
+            for j in o["gj"]:
+                if len(j["bbox"]) != 2 * nb:
+                    fail("bbox|arity")
+                    bad = True
+                    break
+                for k, t in enumerate(j["bbox"]):
+                    per[k if k < nb else len(x) - st + (k - nb)].append(("bbox-" + j["order"], t))
+        if bad:
+            continue
+        for k, lits in enumerate(per):
+            parts, why = [], "rounding"
+            for src, t in lits:
+                e = round_ok(x[k], t, d)
+                if e is None:
+                    parts, why = ["FALSE"], "malformed-number|" + src.split("-")[0]
+                    break
+                parts.append(e)
+            exprs.append(" /\\ ".join(parts))
+            sigs.append("digits|%s|d=%s" % (why, dd))
+            flat_cases.append(c)
+    spec = open(os.path.join(ctx.specdir, "Decimal.tla")).read()
+    return apalache_decimal(ctx, verdict, exprs, flat_cases, sigs, name, spec)
+
+
 def apalache_decimal(ctx, verdict, exprs, cases, sigs, name, spec, per_module=400, group=20, extends="Decimal", modprefix="DecObs"):
     from concurrent.futures import ThreadPoolExecutor
     chunks = [list(range(i, min(i + per_module, len(exprs)))) for i in range(0, len(exprs), per_module)]
@@ -113,19 +248,7 @@ def seeded_values(seed, n):
     return out
 
 
-def has_coords(g):
-    def walk(b):
-        if isinstance(b, list) and b and all(isinstance(x, int) for x in b):
-            return b != [-1]
-        return any(walk(x) for x in b) if isinstance(b, list) else False
-    return walk(g["body"])
-
-
-def flat_has_nil(g):
-    return g["t"] == "MPT" and any(x == [-1] for x in g["body"])
-
-
-PIPES = {"digits-wkt": structure_pipe("wkt"), "digits-geojson": structure_pipe("geojson"), "digits-nums": num_pipe}
+PIPES = {"digits-wkt": structure_pipe("wkt"), "digits-geojson": structure_pipe("geojson"), "digits-nums": num_pipe, "digits-shapes": shape_pipe}
 
 
 def run(ctx, verdict):
@@ -136,9 +259,9 @@ def run(ctx, verdict):
     wcases = [dict(kind="wkt", g=c["g"], ds=ds) for c in trees]
     out2, r2 = vlib.model_a(ctx, "GeoJSONModel", "GeoJSON_geom_%s.cfg" % tier, ["CASE"], workers=4)
     gcases = [dict(kind="geojson", g=c["g"], ds=ds) for c in sorted(out2["CASE"], key=vlib.digest)
-              if c["g"]["t"] != "GC" and c["g"]["l"] in ("XY", "XYZ", "XYZM") and has_coords(c["g"]) and not flat_has_nil(c["g"])]
+              if c["g"]["t"] == "GC" or c["g"]["l"] in ("XY", "XYZ", "XYZM")]
     ctx.coverage_extra["model_a"] = [dict(cfg="WKTRender_%s.cfg" % tier, trees=len(wcases)),
-                                     dict(cfg="GeoJSON_geom_%s.cfg" % tier, geometries_with_bbox=len(gcases))]
+                                     dict(cfg="GeoJSON_geom_%s.cfg" % tier, geojson_geometries=len(gcases))]
     vlib.note_cases(ctx, wcases + gcases)
     structure_pipe("wkt")(ctx, verdict, wcases)
     structure_pipe("geojson")(ctx, verdict, gcases)
@@ -146,12 +269,16 @@ def run(ctx, verdict):
     ncases = []
     for d in range(0, 16):
         vs = vals if not ctx.quick or d in (0, 1, 2, 3, 7, 15) else PALETTE
-        for i in range(0, len(vs), 20):
-            ncases.append(dict(kind="nums", d=d, vals=[ec.to_exact(v) for v in vs[i:i + 20]]))
-    num_pipe(ctx, verdict, ncases)
-    ctx.coverage_extra["numeric_tier"] = dict(values=len(vals), digit_limits="0..15", checker="Apalache on Decimal!RoundOK (exact integers)")
-    ctx.assumptions += ["structure: every tree of the WKT model and every bbox-capable geometry of the GeoJSON model, digit "
-                        "limits %s, GeoJSON options in both orders" % ds,
-                        "numbers: a palette of %d values (ties, powers of ten, tiny, huge, -0) plus seeded floats x d in 0..15; "
-                        "each literal as written is parsed by a regular expression into sign / digits / fraction and decided "
-                        "exactly by Apalache" % len(PALETTE)]
+        ncases += shape_cases(vs, d, 5 * d)
+    shape_pipe(ctx, verdict, ncases)
+    ctx.coverage_extra["numeric_tier"] = dict(values=len(vals), digit_limits="0..15", geometries=len(ncases), shapes=["%s %s" % (t, l) for t, l, _ in SHAPES],
+                                              literals="WKT text, GeoJSON coordinates and bbox with the options in both orders",
+                                              checker="Apalache on Decimal!RoundOK (exact integers)")
+    ctx.assumptions += ["structure: every tree of the WKT model (tokens, and what the library's own parser reads back) and every XY / XYZ / "
+                        "XYZM geometry and collection of the GeoJSON model (also empty ones and multipoints with an empty member; a "
+                        "bounding box is demanded for non-empty non-collections), digit limits %s, GeoJSON options in both orders" % ds,
+                        "numbers: a palette of %d values (ties, powers of ten, tiny, huge, -0) plus seeded floats x d in 0..15, placed as "
+                        "the ordinates of points, linestrings, polygons, multi-geometries and collections in all four layouts; every "
+                        "literal of the WKT text, of the GeoJSON coordinates and of the bounding box (both option orders) is parsed by "
+                        "a regular expression into sign / digits / fraction and decided exactly by Apalache against the ordinate it "
+                        "renders (columns are sorted within a geometry, so the box is the first and the last position)" % len(PALETTE)]
